@@ -340,8 +340,11 @@ class Contract(object):
     def __init__(self, fq, cls, mod):
         self.fq = fq
         self.short = fq.split(".")[-1] if "." in fq else fq
-        fsrc = frontend.get_function(fq)
-        self.module = fsrc.module
+        try:
+            self.module = frontend.get_function(fq).module
+        except frontend.NoSource:
+            # no analysable def (see frontend.NoSource): the unit is reported UNPROVED, its native contract check still runs
+            self.module = frontend.module_prefix(fq)
         self.sidecar_globals = mod.__dict__
         self.sidecar = mod.__name__
         g = lambda k, d: getattr(cls, k, d)
